@@ -2,7 +2,8 @@
 
 `stage(run)` is called by checks/C13.py after its own stages (a),(e).  Scenarios of the `weights` alphabet
 (checks/weights_common.py: weighted pools, limits, minValues with both policies, a reduced scheduling.MaxInstanceTypes, daemonsets
-selected per instance type, startup taints, stale hash annotations, several pods per NodeClaim) - TLC-enumerated from Weights.tla,
+selected per instance type, startup taints, stale hash annotations, several pods per NodeClaim; minValues floors on arch / gen / zone
+with more compatible types than the cap and provider orders unrelated to the price order: cells `cell/truncate-floor/*`) - TLC-enumerated from Weights.tla,
 hand-made cells and seeded explorer scenarios - run through the real Provisioner.Schedule + CreateNodeClaims; the stored NodeClaim
 (Created event, read back through the API) is judged next to the in-memory Results and the scheduler's option list (hook H1
 `final`) by Weights_Trace.tla:
@@ -13,7 +14,7 @@ hand-made cells and seeded explorer scenarios - run through the real Provisioner
   G_C13_Template              (d) labels (template labels, nodepool, nodeclass), taints, startup taints, hash of the pool as stored
                                   NOW + hash version, no simulation-only key among labels / requirements
 
-The closed model behind these guards is Weights.tla (invariants Inv_C13_*; spec mutations truncMin, ovhPerPod, ovhNone, staleHash,
+The closed model behind these guards is Weights.tla (invariants Inv_C13_*; spec mutations truncMin, truncMinOrder, ovhPerPod, ovhNone, staleHash,
 simKeys, noStartup rejected in checks/C19.py's model stage and again here)."""
 import os
 import random
@@ -23,8 +24,8 @@ from checks import sched_common as sc
 from checks import weights_common as wc
 import vlib
 
-SCOPE = {"quick": dict(replay=250, explore=700), "thorough": dict(replay=4000, explore=8000)}
-C13_WEAK = ("truncMin", "ovhPerPod", "ovhNone", "staleHash", "simKeys", "noStartup")
+SCOPE = {"quick": dict(replay=200, explore=500), "thorough": dict(replay=4000, explore=8000)}
+C13_WEAK = ("truncMin", "truncMinOrder", "ovhPerPod", "ovhNone", "staleHash", "simKeys", "noStartup")
 
 
 def stage(run):
@@ -32,23 +33,39 @@ def stage(run):
     rng = random.Random(run.seed + 13)
     dev = os.environ.get("VERIF_DEV")
     procs, par = (4, 4) if dev else (min(12, vlib.NCPU), None)
-    if not os.environ.get("VERIF_SKIP_MODEL"):
-        # the closed model of the (b)-(d) guards and its spec mutations (small scope; checks/C19.py runs the full one)
-        run.closed_model("Weights", "Weights_Cov.cfg", workers=4 if dev else None, timeout=1800)
-        wr = run.tlc("Weights", "Weights_WeakC13.cfg", workers=4 if dev else None, timeout=3600, heap="4g")
-        seen = {rule for rule, guard in re.findall(r'<<"REJ", "(\w+)", "(\w+)">>', wr.stdout) if guard.startswith("G_C13_")}
-        missing = [x for x in C13_WEAK if x not in seen]
-        if missing or not wr.ok:
-            raise vlib.InfraError("C13 (b)-(d) spec mutations not rejected by TLC: %s" % (missing or wr.error))
-        run.notes.append("C13 (b)-(d) spec mutations rejected: " + ", ".join(C13_WEAK))
-    enum = [wc.fix_maps(s) for s in run.generate("Weights", "Weights_GenC13.cfg", workers=2, timeout=3600, heap="4g")]
-    if not enum:
-        raise vlib.InfraError("TLC generated no scenarios")
-    enum = rng.sample(enum, min(tier["replay"], len(enum)))
-    scenarios = [sc.with_options(s, wc.OPTION_GRID[i % len(wc.OPTION_GRID)], "o%d" % (i % len(wc.OPTION_GRID))) for i, s in enumerate(enum)]
-    scenarios += wc.cells()
-    scenarios += [sc.explore(rng, "weights", "x-c13bd-%d-%d" % (run.seed, i)) for i in range(tier["explore"])]
-    viol, cases, sums = wc.replay_and_validate(run, scenarios, "c13bd", procs, par)
+    import concurrent.futures as cf
+    skip = bool(os.environ.get("VERIF_SKIP_MODEL"))         # developer aid for mutation runs
+    # the closed model of the (b)-(d) guards, its spec mutations (small scope; checks/C19.py runs the full ones), the scenario
+    # generation and the harness build run concurrently (Run.tlc is thread-safe)
+    with cf.ThreadPoolExecutor(max_workers=4) as ex:
+        f_build = ex.submit(run.build_drv)
+        f_gen = ex.submit(run.tlc, "Weights", "Weights_GenC13.cfg", workers=2, timeout=3600, heap="4g", collect_beh=True)
+        f_mc = None if skip else ex.submit(run.tlc, "Weights", "Weights_MC_C13.cfg", workers=4, timeout=1800)
+        f_weak = None if skip else ex.submit(run.tlc, "Weights", "Weights_WeakC13.cfg", workers=2, timeout=3600, heap="4g")
+        gen = f_gen.result()
+        if gen.violated or gen.error or not gen.printed:
+            raise vlib.InfraError("scenario generation Weights_GenC13.cfg failed: %s" % (gen.violated or gen.error or "no scenarios"))
+        enum = [wc.fix_maps(s) for s in gen.printed]
+        enum = rng.sample(enum, min(tier["replay"], len(enum)))
+        scenarios = [sc.with_options(s, wc.OPTION_GRID[i % len(wc.OPTION_GRID)], "o%d" % (i % len(wc.OPTION_GRID))) for i, s in enumerate(enum)]
+        scenarios += wc.cells()
+        scenarios += [sc.explore(rng, "weights", "x-c13bd-%d-%d" % (run.seed, i)) for i in range(tier["explore"])]
+        f_build.result()
+        viol, cases, sums = wc.replay_and_validate(run, scenarios, "c13bd", procs, par)
+        if not skip:
+            r = f_mc.result()
+            run.states += r.distinct
+            run.transitions += r.generated
+            run.models.append({"module": "Weights", "cfg": "Weights_MC_C13.cfg", "distinct": r.distinct, "generated": r.generated, "depth": r.depth,
+                               "wall_s": round(r.wall, 1), "violated": r.violated})
+            if not r.ok:
+                raise vlib.InfraError("closed model Weights/Weights_MC_C13.cfg does not satisfy its invariants (%s)" % (r.violated or r.error))
+            wr = f_weak.result()
+            seen = {rule for rule, guard in re.findall(r'<<"REJ", "(\w+)", "(\w+)">>', wr.stdout) if guard.startswith("G_C13_")}
+            missing = [x for x in C13_WEAK if x not in seen]
+            if missing or not wr.ok:
+                raise vlib.InfraError("C13 (b)-(d) spec mutations not rejected by TLC: %s" % (missing or wr.error))
+            run.notes.append("C13 (b)-(d) spec mutations rejected: " + ", ".join(C13_WEAK))
     wc.split_fidelity(run, viol)
     created = sum(c["created"] for c in cases)
     if created == 0:
